@@ -1,5 +1,6 @@
 import GeoVerif.Corr.Proto
 import GeoVerif.Model.Rhumb
+import GeoVerif.Corr.C09Full
 /-!
 Correspondence for C09.
 * `dd`, `dde`: the polymorphic divided-difference formula models run in native binary64 against the private
@@ -27,6 +28,9 @@ def ulp (x : Float) : Float :=
   if a < 1e-300 then 5e-324 else a * eps
 
 def handle (op : String) (args res : List String) : Option Verdict :=
+  match C09Full.handle op args res with
+  | some v => some v
+  | none =>
   match op with
   | "dd" => some <|
     match args, res.mapM pfl with
